@@ -388,7 +388,15 @@ func (w *_listpairsIteratorRepr) Next() (index int64, value datamodel.Node, _ er
 		if err != nil {
 			return 0, nil, err
 		}
-		return int64(idx), field, nil
+		// The list index is the position among the fields that are present,
+		// not the index of the struct field (the two differ after an absent field).
+		pos := int64(0)
+		for i := 0; i < idx; i++ {
+			if !(w.fields[i].IsOptional() && w.val.Field(i).IsNil()) {
+				pos++
+			}
+		}
+		return pos, field, nil
 	}
 }
 
